@@ -204,30 +204,52 @@ def r16_5(ctx):
         raise AnchorError("needs_save: loop over unique_defined_syms not found")
     lp = loops[0]
     s = "self.kconf.unique_defined_syms[*]"
-    rets = [n for n in ast.walk(lp) if isinstance(n, ast.Return)]
-    want = {
-        "no baseline and an entry would be written": {(f"{s}._sdkconfig_value is None", True), (f"{s}.config_string", True)},
-        "value differs from the baseline": {(f"{s}._sdkconfig_value is None", False), (f"{s}.str_value == {s}._sdkconfig_value", False)},
-        "was user-set on disk, is default now": {(f"{s}._sdkconfig_value is None", False), (f"{s}.str_value == {s}._sdkconfig_value", True),
-                                                  (f"{s}._loaded_as_default", False), (f"{s}.has_active_default_value()", True)},
-        "was default on disk, is user-set now": {(f"{s}._sdkconfig_value is None", False), (f"{s}.str_value == {s}._sdkconfig_value", True),
-                                                  (f"{s}._loaded_as_default", True), (f"{s}.has_active_default_value()", False)},
+    # the per-symbol verdict as a boolean function of the five tests it makes, whatever the control structure:
+    #   dirty  <=>  (no baseline and an entry would be written)  or  (baseline and value differs)
+    #               or (baseline, same value, and the marker on disk disagrees with has_active_default_value())
+    from .common import AcceptCondition
+    ac = AcceptCondition(f.node)
+    inside = {id(n) for n in ast.walk(lp) if isinstance(n, ast.Return)}
+    loop_rets = [n for n in ast.walk(lp) if isinstance(n, ast.Return)]
+    for r in loop_rets:
+        if r.value is None or ast.unparse(r.value) != "True":
+            ctx.bad("MenuConfigState.needs_save/loop returns only True", f"`return {ast.unparse(r.value) if r.value else ''}` inside the loop", f.loc(r))
+    ac.rets = [(set(ac.fl.guards_at(n) or set()), n.value) for n in loop_rets if ac.fl.guards_at(n) is not None]
+    atoms = {"B": f"{s}._sdkconfig_value is None", "CS": f"{s}.config_string", "EQ": f"{s}.str_value == {s}._sdkconfig_value",
+             "LD": f"{s}._loaded_as_default", "HD": f"{s}.has_active_default_value()"}
+    present = set()
+    for g, e in ac.rets:
+        for k, _ in g:
+            present |= ac._leaves(ac._parse(k))
+    ac.atoms = sorted(present | set(atoms.values()))
+    other = [a for a in ac.atoms if a not in atoms.values() and a != "self.kconf.missing_syms"]
+    labels = {
+        "no baseline and an entry would be written": lambda v: v["B"] and v["CS"],
+        "value differs from the baseline": lambda v: not v["B"] and not v["EQ"],
+        "was user-set on disk, is default now": lambda v: not v["B"] and v["EQ"] and not v["LD"] and v["HD"],
+        "was default on disk, is user-set now": lambda v: not v["B"] and v["EQ"] and v["LD"] and not v["HD"],
     }
-    got = []
-    for r in rets:
-        if ast.unparse(r.value) != "True":
-            ctx.bad("MenuConfigState.needs_save/loop returns only True", f"`return {ast.unparse(r.value)}` inside the loop", f.loc(r))
-            continue
-        gs = {g for g in (fl.guards_at(r) or set())}
-        got.append(gs)
-    for label, w in want.items():
-        construct = f"MenuConfigState.needs_save/{label}"
-        hit = [g for g in got if w <= g and not [x for x in g - w if " and " not in x[0] and " or " not in x[0]
-                                                       and x != ("self.kconf.missing_syms", False)]]
-        (ctx.ok(construct, f.loc(lp)) if hit else ctx.bad(construct, f"no `return True` under exactly {sorted(w)}", f.loc(lp)))
+    wrong: Dict[str, Dict[str, bool]] = {}
+    spurious = None
+    for v in ac.valuations({"self.kconf.missing_syms": False} if "self.kconf.missing_syms" in ac.atoms else {}):
+        vv = {k: v[a] for k, a in atoms.items()}
+        got = any(all(ac._ev(ac._parse(k), v) == pol for k, pol in g) for g, e in ac.rets)
+        exp = {lab: fn(vv) for lab, fn in labels.items()}
+        for lab, e in exp.items():
+            if e and not got and lab not in wrong:
+                wrong[lab] = vv
+        if got and not any(exp.values()) and spurious is None:
+            spurious = vv
+    for lab in labels:
+        construct = f"MenuConfigState.needs_save/{lab}"
+        (ctx.bad(construct, f"not reported dirty for {wrong[lab]}", f.loc(lp)) if lab in wrong else ctx.ok(construct, f.loc(lp)))
+    if spurious is not None:
+        ctx.bad("MenuConfigState.needs_save/dirty only for one of the four reasons", f"reported dirty for {spurious}", f.loc(lp))
+    if other:
+        ctx.note(f"needs_save: further tests in the loop: {other}")
     construct = "MenuConfigState.needs_save/every symbol is examined, False only after the loop"
     tail = f.node.body[-1]
-    ok = isinstance(tail, ast.Return) and ast.unparse(tail.value) == "False" and not any(isinstance(x, (ast.Break, ast.Continue)) for x in ast.walk(lp)) \
+    ok = isinstance(tail, ast.Return) and ast.unparse(tail.value) == "False" and not any(isinstance(x, ast.Break) for x in ast.walk(lp)) \
         and f.node.body.index(lp) == len(f.node.body) - 2
     (ctx.ok(construct, f.loc(tail)) if ok else ctx.bad(construct, "the loop can be cut short or the final answer changed", f.loc()))
     construct = "MenuConfigState.needs_save/unknown assignments force a save"
@@ -258,8 +280,9 @@ def r16_6(ctx):
     lp = [n for n in ns.node.body if isinstance(n, ast.For)][0]
     conts = [n for n in ast.walk(lp) if isinstance(n, ast.Continue)]
     construct = "MenuConfigState.needs_save/no symbol with a baseline is skipped"
-    (ctx.bad(construct, f"a `continue` under {sorted(fl2.guards_at(conts[0]) or [])} skips symbols: a stale entry of a currently hidden option no longer makes the "
-             "session dirty", ns.loc(conts[0])) if conts else ctx.ok(construct, ns.loc(lp)))
+    skipping = [c for c in conts if not any(k.endswith("._sdkconfig_value is None") and pol for k, pol in (fl2.guards_at(c) or set()))]
+    (ctx.bad(construct, f"a `continue` under {sorted(fl2.guards_at(skipping[0]) or [])} skips symbols that have a baseline: a stale entry of a currently hidden "
+             "option no longer makes the session dirty", ns.loc(skipping[0])) if skipping else ctx.ok(construct, ns.loc(lp)))
     from . import c13
     c13.r13_1b(ctx)
 
